@@ -397,7 +397,8 @@ impl Report {
                         let config = Config {
                             cases: n as u32,
                             failure_persistence: None,
-                            max_shrink_iters: 4096,
+                            max_shrink_iters: 200_000,
+                            max_shrink_time: 12_000,
                             max_local_rejects: 65_536,
                             max_global_rejects: 65_536,
                             ..Config::default()
